@@ -14,7 +14,7 @@ ADDR_FORMS = ["any", "host", "zero", "ones", "wild:0.0.0.255", "wild:0.0.0.1", "
               "wild:0.0.5.0", "wild:127.255.255.255", "prefix:24", "prefix:31", "prefix:32", "prefix:0", "prefix:1",
               "prefixu:24", "group"]
 PORT_FORMS = ["none", "eq1", "eq2", "eq3", "neq1", "neq2", "gt", "lt", "range", "eqname", "rangename"]
-PROTO_FORMS = ["ip", "tcp", "udp", "icmp", "gre", "ospf", "n6", "n17", "nsym"]
+PROTO_FORMS = ["ip", "tcp", "udp", "icmp", "gre", "ospf", "n6", "n17", "nsym", "n4", "n41"]
 FLAG_SETS = [[], ["ack"], ["fin"], ["psh"], ["rst"], ["syn"], ["urg"], ["ack", "syn"], ["ack", "rst"],
              ["ack", "fin", "psh", "rst", "syn", "urg"]]
 LOG_FORMS = ["", "log", "log-input"]
@@ -159,7 +159,7 @@ def build_ace(ctx, row, tag="", small=8, shrink=None, closed_world=False, ordere
         sk.proto = ctx.fresh(tag + "proto", 0, 255)
         ctx.assume(And_(V(sk.proto) != 6, V(sk.proto) != 17) if (row.get("sp", "none") != "none" or row.get("dp", "none") != "none") else True)
         toks.append(T.num(sk.proto))
-    elif pf in ("n6", "n17"):
+    elif pf in ("n6", "n17", "n4", "n41"):
         sk.proto = int(pf[1:])
         toks.append(pf[1:])
     else:
